@@ -502,6 +502,190 @@ def gen_guided(rng, nsteps, pfault, deep=False):
     return ops
 
 
+# ------------------------------------------------------------------------------------------ scripted scenario families
+# Shapes the random histories reach too rarely (found by seeded changes C18-5, C18-6, C19-6): each family is a short
+# script with random parameters, run on the live objects like the guided histories so that pool indices are right.
+FALSY_IDS = ["", "0", "False", "None", " "]
+
+
+class Scripted(Guided):
+    def __init__(self, rng):
+        super().__init__(rng, 0.0)
+
+    def _id(self, idarg):
+        return None if idarg is None else Con("Some", idarg)
+
+    def lf(self, v=None, tag=None, idarg=None):
+        rng = self.rng
+        fs = [["v", Con("P", _lval(v if v is not None else rng.choice(["a", "b"])))],
+              ["tag", Con("P", _lval(tag if tag is not None else rng.choice([0, 1])))]]
+        return self.emit(Con("New", "L18Lf", ORGS[0], fs, self._id(idarg), False, False, False))
+
+    def inn(self, req, opt=None, tup=(), lst=(), name=None, idarg=None):
+        fs = [["name", Con("P", _lval(name or self.rng.choice(["p", "q"])))], ["req", Con("One", Con("Some", req))],
+              ["opt", Con("One", None if opt is None else Con("Some", opt))], ["tup", Con("Seq", list(tup))], ["lst", Con("Seq", list(lst))]]
+        return self.emit(Con("New", "L18In", ORGS[0], fs, self._id(idarg), False, False, False))
+
+    def un(self, one=None, pair=(), k=None, idarg=None):
+        fs = [["k", Con("P", _lval(k if k is not None else self.rng.choice([0, 1])))],
+              ["one", Con("One", None if one is None else Con("Some", one))], ["pair", Con("Seq", list(pair))]]
+        return self.emit(Con("New", "L18Un", ORGS[0], fs, self._id(idarg), False, False, False))
+
+    def wrap(self, x, idarg=None):
+        """a parent over the tree x (random class / field)"""
+        k = self.rng.choice(["un", "in-req", "in-lst", "in-tup"])
+        if k == "un":
+            return self.un(one=x, pair=[self.lf()] if self.rng.random() < 0.4 else [], idarg=idarg)
+        if k == "in-req":
+            return self.inn(req=x, idarg=idarg)
+        y = self.lf()
+        return self.inn(req=y, lst=[x], idarg=idarg) if k == "in-lst" else self.inn(req=y, tup=[x], idarg=idarg)
+
+    def edit(self, a, sib, top):
+        """an in-place change at the bottom of the tree: returns nothing, emits one operation"""
+        rng = self.rng
+        k = rng.choice(["replace", "replace", "none", "with", "transformer"])
+        if k == "none" and sib is None:
+            k = "replace"
+        if k == "replace":
+            self.emit(Con("Replace", a, [["v", Con("V", Con("P", _lval("c")))]]))
+        elif k == "none":
+            self.emit(Con("ReplaceWith", sib, None))
+        elif k == "with":
+            n = self.lf(v="c")
+            self.emit(Con("ReplaceWith", a, Con("Some", n)))
+        else:
+            o = self.w.pool[a]
+            self.emit(Con("Transformer", top, [Con("R", "L18Lf", Con("Some", ["v", _lval(o.v)]), Con("Set", "v", _lval("c")))]))
+
+
+def script_list_removal(rng, force=None):
+    """C18-5: removal of an element (mostly not the last one) from a list / tuple child field with >= 3 elements,
+    through replace_with(None) or an ASTTransformer returning None; then operations on the shifted siblings."""
+    g = Scripted(rng)
+    try:
+        m = rng.choice([3, 3, 4, 5])
+        fld = (force or {}).get("field") or rng.choice(["lst", "lst", "lst", "tup"])
+        j = rng.randrange(m - 1) if rng.random() < 0.85 else m - 1
+        if force and "j" in force:
+            j = force["j"]
+        els = [g.lf(v=("c" if i == j else rng.choice(["a", "b"])), tag=i % 2) for i in range(m)]
+        other = [g.lf() for _ in range(rng.choice([0, 0, 1, 2]))]
+        p = g.inn(req=g.lf(), **{fld: els, ("tup" if fld == "lst" else "lst"): other})
+        top = p
+        for _ in range(rng.choice([0, 1, 1, 2])):
+            top = g.wrap(top)
+        mode = (force or {}).get("mode") or rng.choice(["none", "none", "transformer", "two"])
+        if mode == "transformer":
+            g.emit(Con("Transformer", rng.choice([p, top]), [Con("R", "L18Lf", Con("Some", ["v", _lval("c")]), Con("Remove"))]))
+        else:
+            g.emit(Con("ReplaceWith", els[j], None))
+        rest = [e for i, e in enumerate(els) if i != j]
+        if mode == "two" and len(rest) > 1:
+            g.emit(Con("ReplaceWith", rest[rng.randrange(len(rest) - 1)], None))
+        # follow-ups on the survivors: the element that moved into the freed slot is the interesting one
+        for _ in range(rng.choice([1, 2, 3])):
+            k = rng.choice(["xpath", "with", "replace", "dup", "none"])
+            x = rest[min(j, len(rest) - 1)] if rng.random() < 0.6 else rng.choice(rest)
+            if k == "xpath":
+                g.emit(Con("Xpath", top))
+            elif k == "with":
+                g.emit(Con("ReplaceWith", x, Con("Some", g.lf(v="c"))))
+            elif k == "replace":
+                g.emit(Con("Replace", x, [["tag", Con("V", Con("P", _lval(rng.choice([0, 1]))))]]))
+            elif k == "dup":
+                g.emit(Con("Dup", top, False))
+            else:
+                g.emit(Con("ReplaceWith", x, None))
+    finally:
+        ops = list(g.ops)
+        g.close()
+    return ops
+
+
+def script_falsy_id(rng, force=None):
+    """C18-6: inner nodes with explicit ids that look false ("" , "0", ...) somewhere on a chain of 3-4 inner levels,
+    and an in-place change at the bottom: the digests of ALL ancestors must follow."""
+    g = Scripted(rng)
+    try:
+        levels = rng.choice([3, 3, 4])
+        # mostly at least two levels above the change (level 0 is the direct parent of the changed leaf: control)
+        holders = {rng.randrange(1, levels) if rng.random() < 0.85 else 0}
+        if rng.random() < 0.3:
+            holders.add(rng.randrange(levels))
+        if force and "holder" in force:
+            holders = {force["holder"]}
+        ids = {h: ("" if rng.random() < 0.6 else rng.choice(FALSY_IDS + ["x1"])) for h in holders}
+        if force and "id" in force:
+            ids = {h: force["id"] for h in holders}
+        a = g.lf(v="a")
+        sib = g.lf(v="b") if rng.random() < 0.8 else None
+        fld = rng.choice(["tup", "lst"])
+        low = g.inn(req=a, **({fld: [sib]} if sib is not None else {}), idarg=ids.get(0))
+        top = low
+        for lv in range(1, levels):
+            top = g.wrap(top, idarg=ids.get(lv))
+        if force and "edit" in force:
+            g.emit(Con("Replace", a, [["v", Con("V", Con("P", _lval("c")))]]))
+        else:
+            g.edit(a, sib, top)
+        for _ in range(rng.choice([0, 1, 2])):
+            k = rng.choice(["xpath", "dup", "detach-attach"])
+            if k == "xpath":
+                g.emit(Con("Xpath", top))
+            elif k == "dup":
+                g.emit(Con("Dup", top, rng.random() < 0.5))
+            else:
+                g.emit(Con("Detach", top))
+                g.emit(Con("Attach", top))
+    finally:
+        ops = list(g.ops)
+        g.close()
+    return ops
+
+
+def script_rejected_attach(rng, force=None):
+    """C19-6: root.detach_self() (children stay attached), an edit below one of those children, then the root's id is
+    occupied or one of its children gets another parent, then root.attach() is rejected: nothing may change."""
+    g = Scripted(rng)
+    try:
+        a, b, c = g.lf(v="a"), g.lf(v="b"), g.lf(v="a", tag=1)
+        mid = g.inn(req=a, **{rng.choice(["tup", "lst"]): [b]})
+        rid = "x1" if rng.random() < 0.5 else None
+        shape = (force or {}).get("shape") or rng.choice(["un", "in-first", "in-later"])
+        if force and "rid" in force:
+            rid = force["rid"]
+        if shape == "un":
+            root = g.un(one=mid, pair=[c], idarg=rid)
+            twin = lambda: g.un(one=mid, pair=[c], k=g.w.pool[root].k)
+        elif shape == "in-first":
+            root = g.inn(req=mid, tup=[c], idarg=rid)
+            twin = lambda: g.inn(req=mid, tup=[c], name=g.w.pool[root].name)
+        else:
+            root = g.inn(req=c, lst=[mid], idarg=rid)
+            twin = lambda: g.inn(req=c, lst=[mid], name=g.w.pool[root].name)
+        g.emit(Con("DetachSelf", root))
+        g.edit(a, b, mid)
+        how = (force or {}).get("how") or rng.choice(["id", "id", "parent"])
+        if how == "id":
+            if rid is not None:
+                g.lf(idarg=rid)
+            else:
+                twin()
+        else:
+            g.un(one=mid)
+        g.emit(Con("Attach", root))
+        if rng.random() < 0.4:
+            g.emit(Con("Xpath", mid))
+    finally:
+        ops = list(g.ops)
+        g.close()
+    return ops
+
+
+SCRIPTS = [("list-removal", script_list_removal), ("falsy-id", script_falsy_id), ("rejected-attach", script_rejected_attach)]
+
+
 def gen_cases(rng, tier, n=None, pfault=0.12, kind="history"):
     n = n or (600 if tier == "quick" else 5000)
     cases = []
@@ -517,6 +701,13 @@ def gen_cases(rng, tier, n=None, pfault=0.12, kind="history"):
                               "digest_size": None, "opts": None})
             else:
                 cases.append({"kind": kind + "-guided", "input": Con("L18", ct, gen_guided(rng, steps, pfault)), "digest_size": None, "opts": None})
+        # scripted families, drawn from a generator of their own AFTER the random histories (which stay what they were)
+        import random as _random
+
+        rs = _random.Random(rng.getrandbits(48))
+        for k in range(15 if tier == "quick" else 150):
+            for name, fn in SCRIPTS:
+                cases.append({"kind": kind + "-scripted-" + name, "input": Con("L18", ct, fn(rs)), "digest_size": None, "opts": None})
     finally:
         _arm(0)
         signal.signal(signal.SIGALRM, old)
